@@ -791,11 +791,12 @@ def decision_site(body, what, own, refs, set_var):
         raise ExtractError('%s: insert before the decision' % what)
     ins_m = inserts(then, 'mangled') + inserts(rest, 'mangled')
     ins_p = inserts(els, 'plain') + inserts(rest, 'plain')
+    raw = len(inserts(then, 'mangled')) + len(inserts(els, 'plain')) + len(inserts(rest, 'plain'))
     # the chosen names must be what the context records
     st = squeeze(then)
     if not re.search(r'mangled_name=(mangled_name|mangled_group_info\.group_name);', st):
         raise ExtractError('%s: `mangled_name` assignment not recognised' % what)
-    return {'lookups': lookups, 'reserved': reserved, 'insMangled': ins_m, 'insPlain': ins_p}
+    return {'lookups': lookups, 'reserved': reserved, 'insMangled': ins_m, 'insPlain': ins_p, 'rawInserts': raw}
 
 
 def names_generator_shape(repo, report):
@@ -828,13 +829,41 @@ def names_generator_shape(repo, report):
         'messageSite': decision_site(gmn, 'generate_message_names', 'm.name', msg_refs, 'mangled_message_names'),
         'groupSite': decision_site(hml, 'handle_message_level', 'g.name', grp_refs, 'mangled_message_names'),
     }
+    # every insert into / lookup in the two `mangled_*_names` sets is one of the statements seen at the four sites
+    src = no_comments(raw)
+    n_ins = len(re.findall(r'(?<![A-Za-z_])mangled_(?:type|message)_names\.insert\s*\(', src))
+    n_cnt = len(re.findall(r'(?<![A-Za-z_])mangled_(?:type|message)_names\.count\s*\(', src))
+    seen_ins = sum(x.pop('rawInserts') for x in sites.values())
+    seen_cnt = sum(1 for x in sites.values() for a, _ in x['lookups'] if a == 'mangled')
+    if n_ins != seen_ins or n_cnt != seen_cnt:
+        raise ExtractError('names_generator: %d inserts / %d lookups of mangled_*_names in the file, %d / %d at the decision sites'
+                           % (n_ins, n_cnt, seen_ins, seen_cnt))
+    # the member-name sets and the sets of public names are collected the way the model does
+    sq = squeeze(src)
+    member_snippets = [
+        'if((t.presence==field_presence::constant)||(t.length!=1)){return{};}elseif(t.presence==field_presence::required)'
+        '{return{"min_value","max_value"};}else{return{"min_value","max_value","null_value"};}',
+        'for(constauto&valid_value:e.valid_values){members.insert(valid_value.name);}returnmembers;',
+        'for(constauto&choice:s.choices){members.insert(choice.name);}returnmembers;',
+        'for(constauto&element:c.elements){std::visit([&members](constauto&actual_element){members.insert(actual_element.name);},'
+        'element);}returnmembers;',
+        'for(constauto&[name,enc]:schema->types){std::visit([this](constauto&actual_enc){non_mangled_type_names.insert('
+        'actual_enc.name);},enc);}',
+        'for(constauto&m:schema->messages){non_mangled_message_names.insert(m.name);}',
+        'for(constauto&f:members.fields){level_names.insert(f.name);}for(constauto&g:members.groups){level_names.insert(g.name);}'
+        'for(constauto&d:members.data){level_names.insert(d.name);}returnlevel_names;',
+    ]
+    other_ins = len(re.findall(r'\.insert\s*\(', src)) - n_ins
+    other_mut = len(re.findall(r'\.(?:erase|clear|emplace|merge|extract|swap)\s*\(', src))
+    members_ok = all(x in sq for x in member_snippets) and other_ins == 8 and other_mut == 0
     # the tag containers `types` / `messages`
     tags_ok = bool(re.search(r'if\(non_mangled_type_names\.count\("types"\)\) \{ const auto mangled_tag_types_name = make_mangled_name\( '
                              r'"types", schema->location, non_mangled_type_names\);', gtn)) and \
         bool(re.search(r'if\(non_mangled_message_names\.count\("messages"\)\) \{ const auto mangled_tag_messages_name = '
                        r'make_mangled_name\( "messages", schema->location, non_mangled_message_names\);', gmn))
-    report['names_generator'] = {'sites': sites, 'mangle_loops_ok': aux_ok, 'tag_containers_ok': tags_ok}
-    return sites, aux_ok and tags_ok
+    report['names_generator'] = {'sites': sites, 'mangle_loops_ok': aux_ok, 'tag_containers_ok': tags_ok,
+                                 'member_sets_ok': members_ok}
+    return sites, aux_ok and tags_ok and members_ok
 
 
 def lean_site(name, site, doc):
@@ -1059,8 +1088,10 @@ def extract(repo, outdir):
     text += lean_site('inlineTypeSite', ng_sites['inlineTypeSite'], 'names_generator::handle_composite_elements')
     text += lean_site('messageSite', ng_sites['messageSite'], 'names_generator::generate_message_names, loop over the messages')
     text += lean_site('groupSite', ng_sites['groupSite'], 'names_generator::handle_message_level')
-    text += ('/-- `make_mangled_name`, `make_mangled_group_info`, `make_group_entry_name` and the two tag-container decisions '
-             '(`types`, `messages`) have\n    exactly the text Gen/Scope.lean transliterates -/\n'
+    text += ('/-- `make_mangled_name`, `make_mangled_group_info`, `make_group_entry_name`, the two tag-container decisions '
+             '(`types`, `messages`),\n    the four `get_member_names` overloads and the two `collect_non_mangled_*_names` loops '
+             'have exactly the text\n    Gen/Scope.lean transliterates, and the file holds no other insert into / removal from a '
+             'name set -/\n'
              'def mangleLoopsOk : Bool := %s\n\n' % ('true' if ng_aux else 'false'))
     text += '/-- `is_cpp_keyword`, sbe_schema_cpp_validator.hpp (names equal to one of these are rejected) -/\ndef cppKeywords : List String :=\n  %s\n\n' % chunk_list(kws)
     text += '/-- `is_reserved_cpp_namespace` (rejected as schema name only) -/\ndef reservedNamespaces : List String := %s\n\n' % lean_list(reserved)
